@@ -361,3 +361,98 @@ Proof.
   rewrite construct_cons. unfold S.bytes_okb in *. rewrite forallb_app. cbn [forallb].
   rewrite (IH H2), andb_true_r. unfold okb, S.str_okb in H1. apply andb_true_iff in H1 as [H1 _]. unfold S.bytes_okb in H1. now rewrite H1.
 Qed.
+
+(* ---- the same invariant for ANY predicate on octets (used with "< 256": byte arrays of binary-flagged elements may hold NUL) ---- *)
+Section CharPred.
+  Variable pc : N -> bool.
+  Definition allc (b : bytes) : bool := forallb pc b.
+  Definition tbl_all (T : list ste) : bool := forallb (fun x => allc (s_str x)) T.
+  Definition refs_all (refs : list refc) : bool := forallb (fun r => allc (r_str r)) refs.
+
+  Lemma allc_sub a b : (forall c, In c a -> In c b) -> allc b = true -> allc a = true.
+  Proof. unfold allc. intros H Hb. apply forallb_forall. intros c Hc. rewrite forallb_forall in Hb. apply Hb, H, Hc. Qed.
+
+  Lemma allc_words b w : allc b = true -> In w (split_words b) -> allc w = true.
+  Proof.
+    intros Hb Hw. apply (allc_sub w b); [|exact Hb]. intros c Hc.
+    destruct (split_words_in b [] w c Hw Hc) as [H|[]]. exact H.
+  Qed.
+
+  Lemma allc_cstr b : allc b = true -> allc (cstr b) = true.
+  Proof.
+    unfold allc. induction b as [|c r IH]; cbn [cstr forallb]; [reflexivity|]. intros H. apply andb_true_iff in H as [H1 H2].
+    destruct (N.eqb c 0); [reflexivity|]. cbn [forallb]. now rewrite H1, IH.
+  Qed.
+
+  Lemma strtbl_add_all tbl tlen s idx tbl' tlen' :
+    tbl_all tbl = true -> allc s = true -> strtbl_add tbl tlen s = (idx, tbl', tlen') -> tbl_all tbl' = true.
+  Proof.
+    unfold strtbl_add. destruct (find _ tbl); intros Ht Hs H; injection H as <- <- <-; [exact Ht|].
+    unfold tbl_all in *. rewrite forallb_app, Ht. cbn [forallb s_str andb]. now rewrite Hs.
+  Qed.
+
+  Lemma ref_bump_all refs s : forall refs', refs_all refs = true -> ref_bump refs s = Some refs' -> refs_all refs' = true.
+  Proof.
+    unfold refs_all. induction refs as [|r rest IH]; intros refs'; cbn [ref_bump]; [discriminate|].
+    intros H. cbn [forallb] in H. apply andb_true_iff in H as [H1 H2].
+    destruct (beq (r_str r) s).
+    - intros E; injection E as <-. cbn [forallb r_str]. now rewrite H1, H2.
+    - destruct (ref_bump rest s) as [rest'|] eqn:B; [|discriminate]. intros E; injection E as <-.
+      cbn [forallb]. rewrite H1. exact (IH _ H2 eq_refl).
+  Qed.
+
+  Lemma count_refs_all strings : forall refs, forallb allc strings = true -> refs_all refs = true ->
+    refs_all (count_refs strings refs) = true.
+  Proof.
+    induction strings as [|s rest IH]; intros refs Hs Hr; cbn [count_refs]; [exact Hr|].
+    cbn [forallb] in Hs. apply andb_true_iff in Hs as [H1 H2].
+    destruct (ref_bump refs s) as [refs'|] eqn:B.
+    - apply IH; [exact H2|]. exact (ref_bump_all _ _ _ Hr B).
+    - apply IH; [exact H2|]. unfold refs_all in *. rewrite forallb_app, Hr. cbn [forallb r_str andb]. now rewrite H1.
+  Qed.
+
+  Lemma keep_refs_all refs : forall tbl tlen tbl' tlen' one,
+    refs_all refs = true -> tbl_all tbl = true -> keep_refs refs tbl tlen = (tbl', tlen', one) ->
+    tbl_all tbl' = true /\ refs_all one = true.
+  Proof.
+    unfold refs_all. induction refs as [|r rest IH]; intros tbl tlen tbl' tlen' one Hr Ht; cbn [keep_refs].
+    - intros H; injection H as <- <- <-. auto.
+    - cbn [forallb] in Hr. apply andb_true_iff in Hr as [H1 H2].
+      destruct ((1 <? r_count r) && (3 <? len (r_str r))).
+      + destruct (strtbl_add tbl tlen (r_str r)) as [[i t1] l1] eqn:A. intros H.
+        exact (IH _ _ _ _ _ H2 (strtbl_add_all _ _ _ _ _ _ Ht H1 A) H).
+      + destruct (keep_refs rest tbl tlen) as [[t1 l1] o1] eqn:K. intros H; injection H as <- <- <-.
+        destruct (IH _ _ _ _ _ H2 Ht K) as [A B]. split; [exact A|]. cbn [forallb]. now rewrite H1.
+  Qed.
+
+  Lemma strtbl_initialize_all l roots tbl tlen :
+    forallb allc (collect_nodes l roots) = true -> strtbl_initialize l roots = (tbl, tlen) -> tbl_all tbl = true.
+  Proof.
+    intros Hc. unfold strtbl_initialize, check_references. cbv zeta.
+    destruct (keep_refs (count_refs (collect_nodes l roots) []) [] 0) as [[t1 l1] one] eqn:K1.
+    destruct (keep_refs _ t1 l1) as [[t2 l2] one2] eqn:K2. intros H; injection H as <- <-.
+    destruct (keep_refs_all _ [] 0 _ _ _ (count_refs_all _ [] Hc (eq_refl true)) (eq_refl true) K1) as [T1 O1].
+    refine (proj1 (keep_refs_all _ _ _ _ _ _ _ T1 K2)).
+    apply count_refs_all; [|reflexivity].
+    apply forallb_forall. intros w Hw. apply in_flat_map in Hw as (r & Hr & Hw).
+    unfold refs_all in O1. rewrite forallb_forall in O1. exact (allc_words _ _ (O1 r Hr) Hw).
+  Qed.
+End CharPred.
+
+(* octets < 256 *)
+Definition tbl_lt (T : list ste) : bool := tbl_all S.is_byte T.
+
+Lemma okb_lt b : okb b = true -> allc S.is_byte b = true.
+Proof. unfold okb, S.str_okb, S.bytes_okb, allc. intros H. now apply andb_true_iff in H as [H _]. Qed.
+
+Lemma tbl_ok_lt T : tbl_ok T = true -> tbl_lt T = true.
+Proof.
+  unfold tbl_ok, tbl_lt, tbl_all. intros H. apply forallb_forall. intros x Hx. rewrite forallb_forall in H. exact (okb_lt _ (H x Hx)).
+Qed.
+
+Lemma construct_lt T : tbl_lt T = true -> S.bytes_okb (strtbl_construct T) = true.
+Proof.
+  unfold tbl_lt, tbl_all. induction T as [|y r IH]; [reflexivity|]. cbn [forallb]. intros H. apply andb_true_iff in H as [H1 H2].
+  rewrite construct_cons. unfold S.bytes_okb in *. rewrite forallb_app. cbn [forallb].
+  rewrite (IH H2), andb_true_r. unfold allc in H1. now rewrite H1.
+Qed.
